@@ -875,6 +875,31 @@ def run(ctx):
                 items.append("A" + ftoks([rng.choice(vunst)]))
         if items:
             lines.append("avhist " + " ".join(items))
+    # the same basis written once with a bivincular-type object and once with the EQUAL plain MeshPatt (whole columns /
+    # rows shaded), alone or next to a classical pattern, in either order, with other classes in between: equal bases,
+    # so one class object (an equal pattern of another class that hashes differently splits the class table; seed C05-10)
+    def _as_mesh(p, I, V):
+        k = len(p)
+        return c08.mtok(p, sorted(set((i, y) for i in I for y in range(k + 1)) | set((x, v) for v in V for x in range(k + 1))))
+    twins = []
+    for p in [(0, 1), (1, 0), (0, 2, 1), (1, 0, 2), (0,)]:
+        k = len(p)
+        for _ in range(3):
+            I = sorted(j for j in range(k + 1) if rng.random() < 0.4)
+            V = sorted(j for j in range(k + 1) if rng.random() < 0.4)
+            twins.append((c08.btok(p, I, V), _as_mesh(p, I, V)))
+            if I:
+                twins.append((c08.vtok(p, I), _as_mesh(p, I, [])))
+            if V:
+                twins.append((c08.ctok(p, V), _as_mesh(p, [], V)))
+    twins += [(c08.btok((0, 2, 1), [1], [2]), _as_mesh((0, 2, 1), [1], [2])), (c08.vtok((1, 0), [1]), _as_mesh((1, 0), [1], []))]
+    for bt, mt in twins:
+        extra = rng.choice([[], ["P0,1,2,3"], ["P3,2,1,0"], ["P0,1,2,3", "P2,1,0,3"]])
+        a1, a2 = [bt] + extra, extra[::-1] + [mt]
+        if rng.random() < 0.5:
+            a1, a2 = a2, a1
+        mid = ["A" + ftoks([rng.choice(small)])] if rng.random() < 0.5 else []
+        lines.append("avhist " + " ".join(["A" + ftoks(a1)] + mid + ["A" + ftoks(a2), "A" + ftoks(a1[::-1])]))
     ctx.compare("av-histories", lines)
     # random large
     lines = []
